@@ -52,6 +52,7 @@ def main():
     S.stream_lazy_binary(ctx)
     S.stream_binary_containers(ctx)
     S.stream_lazy_compare(ctx)
+    S.stream_nested_lazy(ctx)
     S.extended_oracle(ctx)
     S.container_matrix(ctx)
     run.finish("proof")
